@@ -90,6 +90,16 @@ func NewPoWConsensus(cCtx context.ConsensusCtx, cCfg def.ConsensusConfig) base.C
 	if target > 256 {
 		pow.bitcoinFlag = true
 	}
+	// refreshDifficulty要用到maxDifficulty, 必须在重启刷新target之前就设置好
+	pow.maxDifficulty = big.NewInt(int64(config.MaxTarget))
+	if pow.bitcoinFlag {
+		md, fNegative, fOverflow := SetCompact(config.MaxTarget)
+		if fNegative || fOverflow {
+			cCtx.XLog.Error("PoW::NewPoWConsensus::pow set MaxTarget error", "fNegative", fNegative, "fOverflow", fOverflow)
+			return nil
+		}
+		pow.maxDifficulty = md
+	}
 	// 重启时需要重新更新目标target
 	tipBlock := cCtx.Ledger.GetTipBlock()
 	if tipBlock.GetHeight() > cCfg.StartHeight {
@@ -102,20 +112,13 @@ func NewPoWConsensus(cCtx context.ConsensusCtx, cCfg def.ConsensusConfig) base.C
 		cCtx.XLog.Debug("PoW::NewPoWConsensus::refreshDifficulty after restart.")
 	}
 	pow.targetBits = target
-	pow.maxDifficulty = big.NewInt(int64(config.MaxTarget))
 	if pow.bitcoinFlag {
 		// 通过MaxTarget和DefaultTarget解析maxDifficulty和DefaultDifficulty
-		md, fNegative, fOverflow := SetCompact(config.MaxTarget)
-		if fNegative || fOverflow {
-			cCtx.XLog.Error("PoW::NewPoWConsensus::pow set MaxTarget error", "fNegative", fNegative, "fOverflow", fOverflow)
-			return nil
-		}
-		_, fNegative, fOverflow = SetCompact(target)
+		_, fNegative, fOverflow := SetCompact(target)
 		if fNegative || fOverflow {
 			cCtx.XLog.Error("PoW::NewPoWConsensus::pow set Default error", "fNegative", fNegative, "fOverflow", fOverflow)
 			return nil
 		}
-		pow.maxDifficulty = md
 	}
 	cCtx.XLog.Debug("Pow::NewPoWConsensus::create a pow instance successfully.", "pow", pow)
 	return pow
